@@ -11,19 +11,21 @@ namespace Claripy.FP.Fold
 open Claripy.FP Claripy.FP.Extract
 
 theorem no_false_tie_of_gap (sc den : Nat) (hden : 0 < den) (hR : sc < sval F F.infMag * den)
-    (hgap : ∀ sh m Δ, m < 2 ^ 24 → sh ≤ 254 → 0 < Δ →
+    (hgap : ∀ sh m Δ, m < 2 ^ 24 → sh ≤ 254 → 0 < Δ → sc < (m + 1) * (den * 2 ^ sh) →
       (2 * sc + Δ = (2 * m + 1) * (den * 2 ^ sh) ∨ 2 * sc = (2 * m + 1) * (den * 2 ^ sh) + Δ) →
       den * 2 ^ sh ≤ Δ * 2 ^ 27) : NoFalseTie sc den := by
   intro h
   have hRD := D_inRange_of_F sc den hR
   have hlof := floorMag_finite F sc den hden hR
+  have hfl2 := (floor_law F sc den hden).2
   generalize floorMag F sc den = lo at *
   obtain ⟨sh, m, hv, hv1, hm, hsh⟩ := F_mag_form lo (by omega)
+  rw [hv1, Nat.mul_assoc, Nat.mul_comm (2 ^ sh) den] at hfl2
   rw [hv, hv1] at h ⊢
   have hsum : m * 2 ^ sh + (m + 1) * 2 ^ sh = (2 * m + 1) * 2 ^ sh := by
     rw [← Nat.add_mul]; congr 1; omega
   rw [hsum] at h ⊢
-  have hgap' := hgap sh m
+  have hgap' := fun Δ h1 h2 h3 => hgap sh m Δ h1 h2 h3 hfl2
   generalize hM : 2 * m + 1 = M at *
   have hM1 : 1 ≤ M := by omega
   have hM25 : M < 2 ^ 25 := by omega
